@@ -153,3 +153,103 @@ Proof.
   destruct (edited_same_decoding_typed u Hu f meta' Hst Hw T C edits fn rs K' KS Hre) as (Ed & _).
   rewrite Ed. exact Hdec.
 Qed.
+
+(* ---- FlacChannelWriter -> edits -> FlacChannelReader *)
+From FlacWriters Require Import Audio_proofs Frontend_proofs.
+From FlacE2E Require ChannelE2E ChannelSuccess.
+
+Lemma in_concat_zip_cons (z : Z) : forall f cs, length f = length cs ->
+  In z f \/ In z (concat cs) -> In z (concat (zip_cons f cs)).
+Proof.
+  induction f as [|x f IH]; intros [|c cs] L H; cbn [length] in L; try discriminate.
+  - destruct H as [[]|[]].
+  - cbn [zip_cons concat]. apply in_or_app. cbn [concat] in H.
+    destruct H as [[->|H]|H].
+    + left. left. reflexivity.
+    + right. apply IH; [lia|left; exact H].
+    + apply in_app_or in H. destruct H as [H|H]; [left; right; exact H|right; apply IH; [lia|right; exact H]].
+Qed.
+
+Lemma in_frames_in_channels (z : Z) k : forall fs, Forall (fun f => length f = k) fs ->
+  In z (concat fs) -> In z (concat (channels_of_frames k fs)).
+Proof.
+  induction 1 as [|f fs Hf F IH]; cbn [concat channels_of_frames]; intros H; [destruct H|].
+  apply in_concat_zip_cons.
+  - rewrite (proj1 (channels_of_frames_shape k fs F)). exact Hf.
+  - apply in_app_or in H. destruct H as [H|H]; [left; exact H|right; exact (IH H)].
+Qed.
+
+(* the interleaving of uniform channels: its samples are the channels' samples, its length is channels x length *)
+Lemma multizip_facts (all : list (list Z)) m : all <> [] -> Forall (fun c => length c = m) all ->
+  length (concat (multizip all)) = (length all * m)%nat /\
+  forall z, In z (concat (multizip all)) -> In z (concat all).
+Proof.
+  intros Hne F. destruct (channels_of_multizip all m Hne F) as (C & Fl & Lm).
+  split.
+  - rewrite (concat_length_uniform (length all) _ Fl), Lm. reflexivity.
+  - intros z Hz. rewrite <- C. exact (in_frames_in_channels z (length all) _ Fl Hz).
+Qed.
+
+Theorem channel_written_edited_then_read : forall (u : list N -> bool),
+  (forall s, Forall (fun b => b < 128) s -> u s = true) ->
+  forall o L md5, (forall l, length (md5 l) = 16%nat) -> (forall l, Forall (fun b => b < 256) (md5 l)) ->
+  forall p rate bps ch, rate < 2 ^ 20 -> 1 <= bps -> bps <= 32 -> 1 <= ch -> ch <= 8 ->
+  forall wo total w (chunks : list (list (list Z))) e rp,
+  options_wf wo -> Forall plain (o_metadata wo) -> seektables (o_metadata wo) = 0%nat ->
+  channel_new p [] wo rate bps ch total = Ok w ->
+  Forall (chunk_ok (N.to_nat ch)) chunks ->
+  let all := cconcat (N.to_nat ch) chunks in
+  forallb (FlacCodec.Wf.fits bps) (concat all) = true ->
+  let m := length (hd [] all) in
+  (1 <= m)%nat -> ch * N.of_nat m < 2 ^ 36 ->
+  match total with Some T => T = N.of_nat m | None => True end ->
+  exists f blocks,
+    channel_run (FlacE2E.E2E.encB o L rate bps) md5 p w chunks = Ok f /\
+    (forall edits fn rs,
+      Forall (typed_edit u) edits -> Forall (U.keeps_streaminfo FlacMeta.Blocks.block) edits ->
+      U.run_edits FlacMeta.Blocks.block psize_r ser_r uclass_r (read_blocks_r u) edits (f_stream f) = (fn, rs) ->
+      FlacCodec.Stream.dec_stream fn =
+        Some (FlacE2E.Bridge.conv_si (f_si f), map FlacCodec.Stream.interleave_frame blocks, FlacCodec.Stream.EndEof)) /\
+    let F := FlacE2E.ReadBridge.file_of_blocks blocks ch bps (Some (FlacCodec.Enc_proofs.blocks_samples blocks)) e rp in
+    RS.valid_file F /\
+    forall c, (c < N.to_nat ch)%nat ->
+      RS.chan_pcm F c = nth c all [] /\
+      forall ops, RS.no_cseek ops -> Forall RS.cop_ok (snd (FlacReaders.Seek.chan_run F ops)) ->
+        let atr := map (RS.abs_c F c) (snd (FlacReaders.Seek.chan_run F ops)) in
+        Forall (RS.cur_ok (nth c all [])) atr /\ RS.chained 0 atr (RS.cpos (fst (FlacReaders.Seek.chan_run F ops))) /\
+        RS.exactly_once (nth c all []) atr /\ Forall (RS.chan_shape F) (snd (FlacReaders.Seek.chan_run F ops)).
+Proof.
+  intros u Hu o L md5 Hmd5 Hmd5b p rate bps ch Hrate Hb1 Hb32 Hc1 Hc8 wo total w chunks e rp Hwf Hpl Hs0 Hnew Hchunks all Hfits m Hm Hlen Htot.
+  assert (Hlen' : N.of_nat m < 2 ^ 36) by nia.
+  destruct (FlacE2E.ReadersE2E.written_channels_are_read o L md5 Hmd5 p rate bps wo ch total w chunks e rp Hwf Hnew Hchunks Hfits Hm Hlen' Htot)
+    as (f & blocks & Hrun & Hdec & HF).
+  exists f, blocks. split; [exact Hrun|]. split; [|exact HF].
+  (* shape of everything written *)
+  destruct (cconcat_ok (N.to_nat ch) chunks Hchunks) as [Lall [m0 Fall]]. fold all in Lall, Fall.
+  assert (Hne : all <> []) by (intros X; rewrite X in Lall; cbn in Lall; lia).
+  assert (Em : m0 = m).
+  { unfold m. destruct all as [|c0 r]; [congruence|]. inversion Fall; subst. reflexivity. }
+  subst m0.
+  destruct (multizip_facts all m Hne Fall) as [Lz Inz]. rewrite Lall in Lz.
+  set (samples := concat (multizip all)) in *.
+  (* counters_fit, through the equal sample-writer run *)
+  destruct (FlacE2E.Transfer.channel_new_sample_new p wo rate bps ch total w Hnew) as (ts & ws & Hs & Et).
+  pose proof (channel_writer_is_sample_writer (FlacE2E.E2E.encB o L rate bps) md5 p wo rate bps ch total ts w ws chunks Hwf Hnew Hs Et Hchunks) as Eq.
+  fold all in Eq. fold samples in Eq.
+  assert (Ec : concat [samples] = samples) by (cbn [concat]; apply app_nil_r).
+  assert (Hfs : forallb (FlacCodec.Wf.fits bps) samples = true).
+  { apply forallb_forall. intros z Hz. rewrite forallb_forall in Hfits. apply Hfits, Inz, Hz. }
+  assert (EW : N.of_nat (length samples) / ch = N.of_nat m).
+  { rewrite Lz, Nat2N.inj_mul, N2Nat.id, N.mul_comm. apply N.div_mul. lia. }
+  assert (Hts : match ts with Some T => T = ch * (N.of_nat (length samples) / ch) | None => True end).
+  { rewrite EW. subst ts. destruct total as [T|]; cbn [option_map]; [|exact I]. subst T. reflexivity. }
+  pose proof (FlacE2E.Success.sample_run_succeeds o L md5 Hmd5 p rate bps ch Hrate Hb1 Hb32 Hc1 Hc8 wo ts ws [samples] Hwf Hs) as K.
+  rewrite Ec in K.
+  destruct (K Hfs ltac:(rewrite EW; lia) ltac:(rewrite Lz, Nat2N.inj_mul, N2Nat.id; exact Hlen) Hts) as (f' & Hrun' & Hfit).
+  assert (Ef : f' = f) by (rewrite Eq, Hrun' in Hrun; inversion Hrun; reflexivity). subst f'.
+  destruct (channel_writer_file_typed (FlacE2E.E2E.encB o L rate bps) md5 p Hmd5 Hmd5b u wo rate bps ch total w chunks f
+              Hwf Hpl Hs0 Hnew Hchunks Hrun Hfit) as (meta' & Hst & Hw & T & C).
+  intros edits fn rs K' KS Hre.
+  destruct (edited_same_decoding_typed u Hu f meta' Hst Hw T C edits fn rs K' KS Hre) as (Ed & _).
+  rewrite Ed. exact Hdec.
+Qed.
